@@ -236,8 +236,18 @@ func runCase(idx int, c *caseDesc) {
 					fail(i, "block-type", fmt.Sprintf("blocked with %s", be.BlockType()))
 					return
 				}
-				if r, ok := be.TriggeredRule().(*hotspot.Rule); !ok || r.ID != blocker.id {
-					fail(i, "triggered-rule", fmt.Sprintf("triggered rule %v, model %s", be.TriggeredRule(), blocker.id))
+				// the rule blamed must be one whose value has no room (which of several such rules is reported is not
+				// part of the property)
+				blamedOK := false
+				if r, ok := be.TriggeredRule().(*hotspot.Rule); ok && r != nil {
+					for _, m := range models[o.Res] {
+						if v := m.extract(args, att); v != nil && m.id == r.ID && m.live[v]+1 > m.thr(v) {
+							blamedOK = true
+						}
+					}
+				}
+				if !blamedOK {
+					fail(i, "triggered-rule", fmt.Sprintf("rejected in the name of rule %v, whose value has room (first rule without room: %s)", be.TriggeredRule(), blocker.id))
 					return
 				}
 			} else {
@@ -559,7 +569,7 @@ func main() {
 	}
 	run = vk.Start("C06", "seq")
 	defer run.Finish()
-	run.Rule("case = 1-2 resources x 1-2 concurrency rules (index 0/1/2/-1/-2 or attachment key, threshold 0-4, specific items over int/string/bool/float/struct/int64 values, optional capacity above the value count), 30-120 enter/exit ops with 0-3 args from a small universe, random exit order; every decision and triggered rule vs. the per-(rule,value) semaphore model, Input.Args of all live entries after every op, capacity probe at quiescence; non-trivial = pass and block seen; distinct by (trace, rules).")
+	run.Rule("case = 1-2 resources x 1-2 concurrency rules (index 0/1/2/-1/-2 or attachment key, threshold 0-4, specific items over int/string/bool/float/struct/int64 values, optional capacity above the value count), 30-120 enter/exit ops with 0-3 args from a small universe, random exit order; every decision vs. the per-(rule,value) semaphore model (the rule blamed for a rejection must be one without room), Input.Args of all live entries after every op, capacity probe at quiescence; non-trivial = pass and block seen; distinct by (trace, rules).")
 	run.Assume("distinct live values stay below the parameter capacity", "GOMAXPROCS=1 for the sequential engine")
 	n := run.N(500, 20000)
 	for i := 0; i < n; i++ {
